@@ -256,8 +256,8 @@ def rand_period(rng, day):
         return ("range", lib_date(a), lib_date(b))
     if r < 0.8:
         return ("wnd", (rng.choice([255, m, 13, 14]), rng.choice([255, 1, 2, 3, 4, 5, 6, 7, 8, 9, (d - 1) // 7 + 1]), rng.choice([255, w, (w % 7) + 1])))
-    return ("cal", [rand_period(rng, day + datetime.timedelta(days=rng.choice([0, 0, 1, -1]))) for _ in range(rng.randrange(1, 4))
-                    if True])
+    # (a referenced calendar may be empty: then the exception is never in force)
+    return ("cal", [rand_period(rng, day + datetime.timedelta(days=rng.choice([0, 0, 1, -1]))) for _ in range(rng.choice([0, 0, 1, 1, 2, 3]))])
 
 
 def rand_sched(rng, day, allow_cal=True):
